@@ -203,6 +203,8 @@ def word288 (b : Bytes) : Prop :=
   (byteAt b 8 = 32 ∧ byteAt b 9 = 1 ∧ byteAt b 10 = 0 ∧ byteAt b 11 = 0) ∨
   (byteAt b 8 = 0 ∧ byteAt b 9 = 0 ∧ byteAt b 10 = 1 ∧ byteAt b 11 = 32)
 
+instance (b : Bytes) : Decidable (word288 b) := by unfold word288; exact inferInstance
+
 theorem byteAt_lt (b : Bytes) (hb : ∀ x ∈ b, x < 256) (i : Nat) : byteAt b i < 256 := by
   unfold byteAt
   rw [List.getD_eq_getElem?_getD]
